@@ -17,24 +17,35 @@
 (***************************************************************************)
 EXTENDS Naturals
 
+(* The detection looks at a window of 132 bytes (128 + "DICM"); the outcome   *)
+(* must not depend on whether the file without its preamble is shorter than, *)
+(* about as long as, or longer than that window (a minimal meta group with   *)
+(* an empty data set is 86 bytes).  `bare` = length of the file without the   *)
+(* preamble (>= 4: it starts with "DICM").                                     *)
+Window == 132
 Shapes  == {"with", "without"}          \* file has / has not the 128-byte preamble
 Entries == {"path", "source"}           \* open_file / from_reader
 Options == {"Auto", "Always", "Never"}
 
 PreambleSize(shape) == IF shape = "with" THEN 128 ELSE 0
-MagicAt128(shape) == shape = "with"
-MagicAt0(shape)   == shape = "without"
-Detected(shape) == IF MagicAt128(shape) THEN "Always" ELSE IF MagicAt0(shape) THEN "Never" ELSE "Auto"
-Skipped(shape, entry, option) ==
-  LET eff == IF option = "Auto" THEN Detected(shape) ELSE option
+FileLen(shape, bare) == PreambleSize(shape) + bare
+SizeClass(bare) == IF bare < Window THEN "shorter than the 132-byte window"
+                   ELSE IF bare <= Window + 4 THEN "about the 132-byte window" ELSE "longer than the 132-byte window"
+MagicAt128(shape, bare) == shape = "with" /\ FileLen(shape, bare) >= Window
+MagicAt0(shape, bare)   == shape = "without" /\ FileLen(shape, bare) >= 4
+Detected(shape, bare) == IF MagicAt128(shape, bare) THEN "Always" ELSE IF MagicAt0(shape, bare) THEN "Never" ELSE "Auto"
+Skipped(shape, entry, option, bare) ==
+  LET eff == IF option = "Auto" THEN Detected(shape, bare) ELSE option
   IN IF eff = "Always" THEN 128
      ELSE IF eff = "Never" THEN 0
      ELSE IF entry = "path" THEN 128 ELSE 0
-Outcome(shape, entry, option) == IF Skipped(shape, entry, option) = PreambleSize(shape) THEN "same" ELSE "fail"
+Outcome(shape, entry, option, bare) == IF Skipped(shape, entry, option, bare) = PreambleSize(shape) THEN "same" ELSE "fail"
 
-Cases == { [shape |-> s, entry |-> e, option |-> o, outcome |-> Outcome(s, e, o)] : s \in Shapes, e \in Entries, o \in Options }
-(* what C09 states: with the default option every shape is read back identically by both entry points *)
-AutoAlwaysReads == \A s \in Shapes, e \in Entries : Outcome(s, e, "Auto") = "same"
-MatchingOptionReads == \A e \in Entries : Outcome("with", e, "Always") = "same" /\ Outcome("without", e, "Never") = "same"
+Cases(bare) == { [shape |-> s, entry |-> e, option |-> o, outcome |-> Outcome(s, e, o, bare), size |-> SizeClass(bare)] :
+                 s \in Shapes, e \in Entries, o \in Options }
+(* what C09 states: with the default option every shape of every size is read back identically by both entry points *)
+BareLens == {4, 86, 130, 131, 132, 133, 134, 136, 1000}
+AutoAlwaysReads == \A b \in BareLens, s \in Shapes, e \in Entries : Outcome(s, e, "Auto", b) = "same"
+MatchingOptionReads == \A b \in BareLens, e \in Entries : Outcome("with", e, "Always", b) = "same" /\ Outcome("without", e, "Never", b) = "same"
 ASSUME AutoAlwaysReads /\ MatchingOptionReads
 =============================================================================
